@@ -238,12 +238,15 @@ Definition api_update_settings (kvs : list (Z * Z)) : CM unit :=
 Definition api_advertise_alt_svc (field : bytes) (origin : option bytes) (sid : option Z) : CM unit :=
   match origin, sid with
   | Some _, Some _ => crash ValueError
+  | None, None => crash ValueError                   (* fix c0a4c40 *)
   | _, _ =>
+      c <- get ;;
+      (if client c then lift_res perr else ret tt) ;;;   (* fix 4e7b916: only servers advertise *)
       cfsm CI_SEND_ALTERNATIVE_SERVICE ;;;
       frames <- match origin, sid with
                 | Some o, _ => ret [FAltSvc 0 o field]
                 | None, Some i => get_stream_by_id i ;;; with_stream i (advertise_alt_svc field)
-                | None, None => crash TypeError
+                | None, None => crash ValueError
                 end ;;
       prepare_for_sending frames
   end.
